@@ -36,6 +36,9 @@ def _write_opens(fi):
     return out
 
 
+NEVER_NONE = ("tomlkit.parse", "tomlkit.loads", "tomlkit.document", "dict", "list", "tomlkit.table")  # library calls that return an object, never None
+
+
 def never_alters(prog, rep):
     rep.rule("NO-CLOBBER", "in load_config_toml every file-writing construct (open with a write mode, write_text, remove/rename/...) lies only on the not-exists branch of an existence test on the same path expression, and no other file writer is reachable from it")
     fi = prog.func("load_config_toml")
@@ -49,8 +52,58 @@ def never_alters(prog, rep):
         ptxt = norm(path) if path is not None else "?"
         tests = {t.format(p=ptxt) for t in EXISTS_TESTS}
 
-        def asserts_missing(lab):
+        def asserts_missing_direct(lab):
             return bool(lab) and lab[0] == "cond" and norm(lab[1]) in tests and lab[2] is False
+
+        reach0 = g.reach_filtered(g.entry, lambda u, v, lab: not asserts_missing_direct(lab))
+
+        def none_witness(x):
+            """local x is None exactly where the file was found missing: its `x = None` bindings sit only on the not-exists
+            branch and every other binding is the result of a parser / constructor that never returns None"""
+            defs = [d for d in local_defs(fi, x) if isinstance(d, ast.Assign)]
+            nones = [d for d in defs if isinstance(d.value, ast.Constant) and d.value.value is None]
+            if not nones or len(defs) != len(local_defs(fi, x)):
+                return False
+            for d in defs:
+                if d in nones:
+                    if g.node_of(d) in reach0:
+                        return False
+                elif not (isinstance(d.value, (ast.Dict, ast.List)) or (isinstance(d.value, ast.Call) and norm(d.value.func) in NEVER_NONE)):
+                    return False
+            return True
+
+        def asserts_missing(lab):
+            if asserts_missing_direct(lab):
+                return True
+            if bool(lab) and lab[0] == "cond":
+                c = lab[1]
+                if isinstance(c, ast.Compare) and len(c.ops) == 1 and isinstance(c.left, ast.Name) and isinstance(c.comparators[0], ast.Constant) and c.comparators[0].value is None:
+                    if (isinstance(c.ops[0], ast.Is) and lab[2] is True) or (isinstance(c.ops[0], ast.IsNot) and lab[2] is False):
+                        # only bindings that can reach the test count: a re-binding inside the branch comes after it
+                        return none_witness_at(c.left.id, c)
+            return False
+
+        def none_witness_at(x, test):
+            defs = [d for d in local_defs(fi, x) if isinstance(d, ast.Assign)]
+            if len(defs) != len(local_defs(fi, x)):
+                return False
+            from ..model import parent as _parent
+
+            st_ = test
+            while not isinstance(st_, ast.stmt):
+                st_ = _parent(st_)
+            tn = g.node_of(st_)
+            live = [d for d in defs if tn in g.reach_avoiding([g.node_of(d)])]
+            nones = [d for d in live if isinstance(d.value, ast.Constant) and d.value.value is None]
+            if not nones:
+                return False
+            for d in live:
+                if d in nones:
+                    if g.node_of(d) in reach0:
+                        return False
+                elif not (isinstance(d.value, (ast.Dict, ast.List)) or (isinstance(d.value, ast.Call) and norm(d.value.func) in NEVER_NONE)):
+                    return False
+            return True
 
         node = g.node_of(call)
         reach = g.reach_filtered(g.entry, lambda u, v, lab: not asserts_missing(lab))
@@ -233,6 +286,27 @@ def overlay(prog, rep):
     rb_ = local_defs(lc, lc.params[1])
     rep.check(not rb_, "OVERLAY", lc.short, "default document as given", f"`{lc.params[1]}` is not re-bound", (f"`{norm(rb_[0])[:80]}` rewrites the default document before it is parsed: whatever the rewriting does to the text is also done inside multi-line string values (dedent / strip / replace change them), so keys the user leaves alone no longer carry the default the caller gave" if rb_ else ""), lc.loc(rb_[0]) if rb_ else lc.loc())
     defs1 = local_defs(lc, norm(c.args[1])) if isinstance(c.args[1], ast.Name) else []
+    # a `x = None` binding that cannot reach the call as None (`if x is None: x = {}` stands between) is not a value of the argument
+    if isinstance(c.args[1], ast.Name) and any(isinstance(d, ast.Assign) and isinstance(d.value, ast.Constant) and d.value.value is None for d in defs1):
+        g_ = cfg_of(lc)
+        xn = c.args[1].id
+        st_c = c
+        from ..model import parent as _parent
+
+        while not isinstance(st_c, ast.stmt):
+            st_c = _parent(st_c)
+        others = {g_.node_of(d) for d in defs1 if not (isinstance(d, ast.Assign) and isinstance(d.value, ast.Constant) and d.value.value is None)}
+
+        def _edge(u, v, lab):
+            if v in others:
+                return False
+            if lab and lab[0] == "cond" and isinstance(lab[1], ast.Compare) and len(lab[1].ops) == 1 and isinstance(lab[1].left, ast.Name) and lab[1].left.id == xn and isinstance(lab[1].comparators[0], ast.Constant) and lab[1].comparators[0].value is None:
+                if (isinstance(lab[1].ops[0], ast.Is) and lab[2] is False) or (isinstance(lab[1].ops[0], ast.IsNot) and lab[2] is True):
+                    return False  # x is still None here: this edge is not taken
+            return True
+
+        dead = [d for d in defs1 if isinstance(d, ast.Assign) and isinstance(d.value, ast.Constant) and d.value.value is None and g_.node_of(st_c) not in g_.reach_filtered(g_.node_of(d), _edge)]
+        defs1 = [d for d in defs1 if d not in dead]
     vals1 = sorted(norm(d.value) for d in defs1 if isinstance(d, ast.Assign))
     ok1 = len(vals1) == 2 and any(v in ("dict()", "{}") for v in vals1) and any(v.startswith("tomlkit.parse(") for v in vals1)
     early_defaults = False
